@@ -14,7 +14,7 @@ from ..world import World, inventory, contents_of, inv_brief
 
 ID = "C04"
 LEVEL = "exploration"
-BUDGET = {"quick": {"n": 480, "wall_s": 400}, "thorough": {"n": 20000, "wall_s": 3300}}
+BUDGET = {"quick": {"n": 1500, "wall_s": 400}, "thorough": {"n": 20000, "wall_s": 3300}}
 RULE = ("per history: world of 1..4 duplicate groups over 1..2 roots (--isolate in 30%, hard links / -H in 25%, "
         "--priority or -n 2 on the dedupe side in 30%); 1..2 edits drawn from {rewrite same/other length, append, "
         "truncate, delete, delete+recreate, replace by directory, by symlink to a member / to an outside file, touch}, "
